@@ -65,6 +65,9 @@ def check(ctx):
     check_rowwise_cpm(ctx)
     check_sentinel(ctx)
     check_taxonomy_last(ctx)
+    from .C05 import check_tiles
+    check_tiles(ctx, ('diff_exp.precompute_from_anndata',
+                      'diff_exp.precompute_utils'), floor=1)
 
 
 # ----------------------------------------------------------------------
